@@ -305,6 +305,7 @@ Proof. vm_compute. repeat split; try reflexivity. discriminate. Qed.
     [split], [remove], [set], writes, and every further [find*] call agree again, along navigations
     of any length ([C18_view_navigation_key_only], [C18_view_mut_navigation_key_only]). *)
 From PT Require KeyCongr.
+From PT Require Import Arena Arena2 Arena3 ArenaProps ArenaKeys.
 
 Section C18_keys.
 Variables (w : N) (fl : flavour) (V : Type).
@@ -557,6 +558,36 @@ Proof.
   split; [reflexivity | exact I].
 Qed.
 
+(* ---------------------------------------------------------------------------------------- *)
+(** * The same statements about the ARENA-level transcription (ArenaKeys.v), for every arena reachable
+      from the empty arena by a history over the whole mutator alphabet *)
+
+(** two valid representations of one key (they may differ in host bits) give literally the same
+    result in every lookup and selection *)
+Theorem C18_arena_key_only (am : Arena.amap pfx V) (q q' : pfx) :
+  areach pfx V (peq w) (contains w fl) (is_bit_set w) plen (lcp w fl) pzero (okp w) am -> okp w q -> okp w q' -> kbits w q = kbits w q' ->
+  Arena.a_get pfx V (peq w) (contains w fl) (is_bit_set w) plen am q = Arena.a_get pfx V (peq w) (contains w fl) (is_bit_set w) plen am q' /\
+  Arena3.a_get_key_value pfx V (peq w) (contains w fl) (is_bit_set w) plen am q = Arena3.a_get_key_value pfx V (peq w) (contains w fl) (is_bit_set w) plen am q' /\
+  Arena3.a_contains_key pfx V (peq w) (contains w fl) (is_bit_set w) plen am q = Arena3.a_contains_key pfx V (peq w) (contains w fl) (is_bit_set w) plen am q' /\
+  Arena.a_get_lpm pfx V (peq w) (contains w fl) (is_bit_set w) plen am q = Arena.a_get_lpm pfx V (peq w) (contains w fl) (is_bit_set w) plen am q' /\
+  Arena3.a_get_lpm_prefix pfx V (peq w) (contains w fl) (is_bit_set w) plen am q = Arena3.a_get_lpm_prefix pfx V (peq w) (contains w fl) (is_bit_set w) plen am q' /\
+  Arena3.a_get_lpm_mut pfx V (peq w) (contains w fl) (is_bit_set w) plen am q = Arena3.a_get_lpm_mut pfx V (peq w) (contains w fl) (is_bit_set w) plen am q' /\
+  Arena3.a_get_spm pfx V (peq w) (contains w fl) (is_bit_set w) plen am q = Arena3.a_get_spm pfx V (peq w) (contains w fl) (is_bit_set w) plen am q' /\
+  Arena3.a_get_spm_prefix pfx V (peq w) (contains w fl) (is_bit_set w) plen am q = Arena3.a_get_spm_prefix pfx V (peq w) (contains w fl) (is_bit_set w) plen am q' /\
+  Arena3.a_cover pfx V (peq w) (contains w fl) (is_bit_set w) plen am q = Arena3.a_cover pfx V (peq w) (contains w fl) (is_bit_set w) plen am q' /\
+  Arena3.a_children pfx V (peq w) (contains w fl) (is_bit_set w) plen am q = Arena3.a_children pfx V (peq w) (contains w fl) (is_bit_set w) plen am q'.
+Proof. exact (arena_C18_key_only pfx V _ _ _ _ _ _ _ _ _ L am q q'). Qed.
+
+(** the inserting calls store the representation passed: afterwards a lookup of ANY representation
+    [q'] of the key returns [(q, x)] *)
+Theorem C18_arena_insert_stores_repr (am : Arena.amap pfx V) (q q' : pfx) (x : V) :
+  areach pfx V (peq w) (contains w fl) (is_bit_set w) plen (lcp w fl) pzero (okp w) am -> okp w q -> okp w q' -> kbits w q' = kbits w q ->
+  (exists am' o, Arena.a_insert pfx V (peq w) (contains w fl) (is_bit_set w) plen (lcp w fl) am q x = Arena.Ok (am', o) /\ areach pfx V (peq w) (contains w fl) (is_bit_set w) plen (lcp w fl) pzero (okp w) am' /\
+                 Arena3.a_get_key_value pfx V (peq w) (contains w fl) (is_bit_set w) plen am' q' = Arena.Ok (Some (q, x))) /\
+  (exists am' o, Arena2.a_entry_insert pfx V (peq w) (contains w fl) (is_bit_set w) plen (lcp w fl) am q x = Arena.Ok (am', o) /\ areach pfx V (peq w) (contains w fl) (is_bit_set w) plen (lcp w fl) pzero (okp w) am' /\
+                 Arena3.a_get_key_value pfx V (peq w) (contains w fl) (is_bit_set w) plen am' q' = Arena.Ok (Some (q, x))).
+Proof. exact (arena_C18_insert_stores_repr pfx V _ _ _ _ _ _ _ _ _ L am q q' x). Qed.
+
 End C18_keys.
 
 (** literal equality of the two [view_at] results is FALSE: at [w = 8], in the map holding
@@ -623,3 +654,5 @@ Print Assumptions C18_ovm_sim_same.
 Print Assumptions C18_view_mut_key_only.
 Print Assumptions C18_view_mut_navigation_key_only.
 Print Assumptions C18_view_at_literal_refuted.
+Print Assumptions C18_arena_key_only.
+Print Assumptions C18_arena_insert_stores_repr.
